@@ -382,12 +382,51 @@ impl<'a> Gen<'a> {
         let mut ops = Vec::new();
         let mut cfgs = Vec::new();
         for h in 0..n_hosts {
-            let c = self.any_cfg(full, small, none);
+            let mut c = self.any_cfg(full, small, none);
+            if h == 0 && c.is_phonetic() && self.rng.pct(5) {
+                // the BIG dictionary: lists of more than 256 candidates
+                c.data = DataKind::Big;
+                c.opts |= PHON_SUG;
+            }
             cfgs.push(c);
             ops.push(Op::Spawn { h: h as u8, cfg: c });
         }
         let mut since_term = vec![0usize; n_hosts];
         let target = self.rng.range(30, if self.tier == Tier::Quick { 140 } else { 200 }) as usize;
+        if cfgs[0].data == DataKind::Big {
+            // where the selection byte (u8) stops covering the list (usize): a word with
+            // several hundred candidates, then a selection-preserving mark with a selection
+            // at the top of the byte range, or counted from the end of the list
+            for _ in 0..self.rng.range(2, 6) {
+                let mut w = self.rng.pick(&["ko", "mo", "bo", "to"]).to_string();
+                if self.rng.pct(60) {
+                    w.push_str(&self.short_suffix());
+                }
+                self.type_text(&mut ops, 0, &w, if valid_sel { Sel::Presel } else { Sel::Raw(0) });
+                for _ in 0..self.rng.range(1, 3) {
+                    let mark = *self.rng.pick(PRESERVING) as char;
+                    let byte = match self.rng.weighted(&[45, 25, 15, 15]) {
+                        0 => 255u8,
+                        1 => 254,
+                        2 => 253 + self.rng.below(3) as u8,
+                        _ => self.rng.next_u64() as u8,
+                    };
+                    let sel = if valid_sel {
+                        if self.rng.pct(75) { Sel::Valid(byte) } else { Sel::Top(self.rng.below(60) as u8) }
+                    } else {
+                        Sel::Raw(byte)
+                    };
+                    if let Some(k) = key_for(self.env, mark) {
+                        ops.push(Op::Key { h: 0, key: k, m: 0, sel });
+                    }
+                    if self.rng.pct(50) {
+                        ops.push(Op::Bs { h: 0, ctrl: false });
+                    }
+                }
+                let t = self.terminator(0, true);
+                ops.push(t);
+            }
+        }
         // unusual-but-legal learned entries written by the engine itself
         if self.rng.pct(25) && cfgs[0].is_phonetic() {
             let recipes: [&str; 10] = [":)", ":", "de:sh", ";)", "\"a\"", ":`", "o`", "`", "a`", "=s"];
